@@ -549,6 +549,7 @@ func cmdRun(args []string) {
 	hangIsV := hooks.HangIsViolation[*propID]
 	hangConfirmed := false
 	stoppedWorkers := 0
+	slowRuns := 0
 	for k := int64(0); k < W; k++ {
 		r := &results[k]
 		from := int64(0)
@@ -612,11 +613,27 @@ func cmdRun(args []string) {
 			found = append(found, r.viol...)
 			confirmed := hangConfirmed // once a hang has been confirmed with the 3x budget, later ones in this batch are believed at 1x
 			if !confirmed {
-				cr := runWorker([]string{"worker", "-prop", *propID, "-tier", *tier, "-seed", fmt.Sprint(*seed), "-digest", fmt.Sprint(idx)}, []string{"VERIF_WATCHDOG_X=3"}, 0)
+				// the run alone, as an ordinary one-run slice, with three times the budget
+				cr := runWorker([]string{"worker", "-prop", *propID, "-tier", *tier, "-seed", fmt.Sprint(*seed), "-w", "0", "-W", "1",
+					"-from", fmt.Sprint(idx), "-runs", fmt.Sprint(idx + 1)}, []string{"VERIF_WATCHDOG_X=3"}, 0)
 				confirmed = cr.hangAt >= 0 || cr.crashed
+				if !confirmed && cr.stats != nil {
+					// it did finish: its verdict and coverage count like any other run's
+					mergeStats(total, cr.stats)
+					found = append(found, cr.viol...)
+					vcount += cr.vcount
+				}
 			}
+			slowRuns++
 			if !confirmed {
-				fmt.Printf("note: run %d exceeded the watchdog once but finished on retry; not counted\n", idx)
+				fmt.Printf("note: run %d exceeded the watchdog (%v) once but finished within three times that\n", idx, hooks.PerRunTimeout)
+				if slowRuns >= 3 {
+					// runs that take tens of seconds each (gigabyte allocations) would
+					// keep this batch busy for hours; what was seen so far is reported
+					fmt.Printf("note: %d runs of this batch exceeded the watchdog; the slice of worker %d is not continued\n", slowRuns, k)
+					stoppedWorkers++
+					break
+				}
 			} else {
 				if !hangIsV {
 					fatal2("run %d of %s does not return (watchdog %v, then 3x); this property's check cannot judge it", idx, *propID, hooks.PerRunTimeout)
@@ -625,6 +642,12 @@ func cmdRun(args []string) {
 				found = append(found, wireViolation{T: "v", I: idx, Tape: r.hangTape, Class: "hang", Sig: "hang",
 					Detail: fmt.Sprintf("run %d did not return within %v and again not within three times that", idx, hooks.PerRunTimeout)})
 				vcount++
+			}
+			if confirmed {
+				// fail fast: each further stuck run of this slice would cost a full
+				// watchdog period; the confirmed hang has judged the tree
+				stoppedWorkers++
+				break
 			}
 			from = ((idx-k)/W + 1) * W
 			*r = runWorker(workerArgs(from, false, fmt.Sprintf("h%d", tries)), nil, 0)
